@@ -93,6 +93,17 @@ theorem leak_counterexample :
     implEval Cfg.fixed 20 witnessF05 = { result := .ok [.int 2, .int 10], flags := Flags.none } := by
   decide
 
+/-- F05c, kernel-checked (the one program shape with a free variable): `let $f := function(){$y}
+return let $y := 5 return $f()` — while the callee still sees the caller's variables the model
+returns 5 and raises `scope`; on the reference tree it raises XPST0008 like the specification,
+without any flag. -/
+theorem dynamic_scope_counterexample :
+    let p : Expr := .letE 0 (.fnE 0 [] (.var 1)) (.letE 1 (.lit 5) (.call (.var 0) []))
+    implEval { share := false, leak := false, lexical := false } 20 p
+      = { result := .ok [.int 5], flags := { scope := true } } ∧
+    implEval Cfg.fixed 20 p = { result := .error .XPST0008, flags := Flags.none } ∧
+    specEval 20 p = .error .XPST0008 := by decide
+
 /-- the hypotheses of `closure_eq_spec_partial` are satisfiable on a non-trivial program even on
 the pinned tree: closures created in a loop and called *before* the function expression is
 evaluated again — `for $i in (1,2) return (function($x){$x + $i})(10)` (test on literals) -/
